@@ -48,8 +48,8 @@ Print Assumptions c05_blockdrop_getitem_public.
     with any segments, filters with string / lambda key arguments, if, for,
     assign, output; sync and async) and all data, the rendered text or error
     depends on no Python attribute of any context object other than the names
-    in [hook_names] (force_liquid_default, gettext), which the engine reads by
-    a fixed name. *)
+    in [hook_names] (force_liquid_default, gettext, __repr__), which the engine
+    reaches by a fixed name. *)
 Theorem c05_attrs_noninterference : forall async p d d',
   map_snd erase d = map_snd erase d' -> render async p d = render async p d'.
 Proof. exact attrs_noninterference. Qed.
@@ -73,8 +73,17 @@ Theorem c05_translations_provider_refuted :
 Proof. exact translations_provider_refuted. Qed.
 Print Assumptions c05_translations_provider_refuted.
 
-(** It holds under the exact guard that excludes those two sites: no object
-    in the data has an attribute named force_liquid_default or gettext. *)
+(** ... and by str() of a dict, which shows repr() — not str() — of the
+    objects inside it: {{ d }} prints what the object's __repr__ returns. *)
+Theorem c05_repr_reachable_refuted :
+  exists d d', proto_eq d d' /\ hook_free_ns d' = true
+               /\ render false w_repr d = Ok (lit "{'k': O(secret='S3CR3T')}")
+               /\ render false w_repr d' = Ok (lit "{'k': P#1}").
+Proof. exact repr_reachable_refuted. Qed.
+Print Assumptions c05_repr_reachable_refuted.
+
+(** It holds under the exact guard that excludes those three sites: no object in
+    the data has an attribute named force_liquid_default, gettext or __repr__. *)
 Theorem c05_attrs_noninterference_partial : forall async p d d',
   hook_free_ns d = true -> hook_free_ns d' = true -> proto_eq d d' ->
   render async p d = render async p d'.
